@@ -301,6 +301,10 @@ func (e *Engine) SolveUnit(unitName string, uses []string) []*OblResult {
 				r.Status = "undischarged"
 				r.FailPath = j.idx
 				r.Output = j.res.Status + ": " + truncate(j.res.Output, 2000)
+				// an "unknown" answer may still carry a candidate model: it is only trusted if it replays
+				if m := parseGetValue(j.res.Output); len(m) > 0 {
+					r.Model = e.prettyModel(m)
+				}
 				r.query = j.query
 				r.Trace = o.Paths[j.idx].Trace
 				r.Solver = j.res.Solver
